@@ -11,6 +11,8 @@ QUIET.addHandler(logging.NullHandler())
 QUIET.propagate = False
 
 PATH = '/engine.io/'
+UPGRADE_SPELLINGS = [('websocket', 'Upgrade'), ('WebSocket', 'upgrade'),
+                     ('WEBSOCKET', 'keep-alive, Upgrade')]
 
 
 class HandlerBoom(Exception):
@@ -241,7 +243,11 @@ class SimBase:
     def ws_request(self, q, headers=None, upgrade_headers=True):
         hd = {}
         if upgrade_headers:
-            hd = {'Upgrade': 'websocket', 'Connection': 'Upgrade'}
+            # header values are case-insensitive tokens (RFC 6455 / 7230);
+            # a check may select another spelling for all handshakes of a run
+            up, conn = UPGRADE_SPELLINGS[getattr(self, 'upgrade_spelling', 0)
+                                         % len(UPGRADE_SPELLINGS)]
+            hd = {'Upgrade': up, 'Connection': conn}
         hd.update(headers or {})
         ws = self.new_ws()
         t = self.request('GET', q, hd, ws=ws)
